@@ -1,10 +1,12 @@
 import Spec.Offline
 import Lemmas.Offline.Split
+import Lemmas.Offline.Literal
+import Lemmas.Offline.Run
 /-!
 # C12 — the offline SQL script has the same effect as the online run
 -/
 namespace C12
-open Model.Offline Lemmas.Offline
+open Model.Offline Lemmas.Offline Spec.Offline
 
 /-- **C12.split.** Splitting an emitted script at the command terminator outside string
 literals, quoted identifiers and comments recovers exactly the emitted statements, for
@@ -16,5 +18,246 @@ theorem split (items : List Item) (h : ∀ i ∈ items, itemOk i = true) :
   unfold Model.Offline.split
   rw [foldl_emit items [] h]
   simp [finish, curOf]
+
+/-- **C12.literal.** Reading back a rendered literal gives the value: for NULL, every integer
+and **every** string (any characters: quotes, `;`, `--`, newlines, backslashes, non-ASCII). -/
+theorem literal (v : Val) : parseLiteral (renderLit v) = some v := by
+  cases v with
+  | null => decide
+  | int i =>
+    cases i with
+    | ofNat n =>
+      have h := parseInt_renderInt (Int.ofNat n)
+      simp only [renderInt] at h
+      simp [parseLiteral, renderLit, renderInt, lex_natDigits, litOf, natDigits_ne_NULL, h]
+    | negSucc n =>
+      have h := parseInt_renderInt (Int.negSucc n)
+      simp only [renderInt] at h
+      have hne : ('-' :: natDigits (n + 1)) ≠ k_NULL := by simp [k_NULL]
+      simp [parseLiteral, renderLit, renderInt, lex_neg, litOf, hne, h]
+  | str s => simp [parseLiteral, renderLit, lex_str, litOf]
+
+/-- non-vacuity: an awkward string survives, and the reader rejects an unterminated literal -/
+example : parseLiteral (renderLit (.str ['o', '\'', 'b', ';', '\n', '-', '-', 'x', '\\', 'é'])) =
+    some (.str ['o', '\'', 'b', ';', '\n', '-', '-', 'x', '\\', 'é']) := by decide
+example : renderLit (.str ['o', '\'', 'b']) = ['\'', 'o', '\'', '\'', 'b', '\''] := by decide
+example : parseLiteral ['\'', 'a'] = none := by decide
+
+/-! ## statements are recovered and read back -/
+
+/-- **C12.closed.** Every statement of the language renders to a lexically closed text — for
+every table / column / index name and every value (strings with `;`, `--`, quotes, newlines …):
+so `C12.split` applies to every script the offline interpreter can emit. -/
+theorem closed (q : Str → Bool) (hq : BareSafe q) (s : Stmt) (h : isOther s = false) :
+    Closed (renderStmt q s) = true := closed_stmt q hq s h
+
+/-- **C12.lex_roundtrip.** The reader's lexer gives back exactly the tokens that were rendered
+(names, literals, keywords), for every statement of the language. -/
+theorem lex_roundtrip (q : Str → Bool) (hq : BareSafe q) (s : Stmt) :
+    lex (flat (stmtP q s)) = toks (stmtP q s) := lex_stmtP q hq s
+
+/-- SQLite's quoting policy satisfies the assumption made on `q` -/
+theorem sqlite_bareSafe : BareSafe sqliteNeedsQuote := by
+  intro n h
+  simp only [sqliteNeedsQuote, Bool.or_eq_false_iff, Bool.not_eq_false'] at h
+  obtain ⟨⟨⟨_, h2⟩, h3⟩, _⟩ := h
+  refine ⟨?_, h3⟩
+  cases n with
+  | nil => simp at h2
+  | cons c r =>
+    simp only [List.all_cons, Bool.and_eq_true] at h3
+    simp [validWord, h3.1, h3.2]
+
+/-- **C12.reads_back_vt.** The version-table statements (CREATE / DROP / INSERT / UPDATE /
+DELETE with `literal_column("'%s'" % version)`) are read back as themselves, for every version
+string without a quote character (they are pasted unescaped). -/
+theorem reads_back_vt (q : Str → Bool) (hq : BareSafe q) (s : Stmt) (hv : isVt s = true) :
+    parseStmt q (renderStmt q s) = s := by
+  have hl := lex_stmtP q hq s
+  cases s <;> simp [isVt] at hv <;> simp only [renderStmt] at * <;>
+    simp only [parseStmt, hl] <;>
+    simp [parseToks, vtCandidates, stmtP, toks, w, p, sp1, spCol, spNl, vtName, vtCol, strAt]
+
+/-! ## same effect -/
+
+theorem bind_prefix (o : Option (List Stmt)) (pre : List Stmt) (d : DB) :
+    (o.map (fun rest => pre ++ rest)).bind (fun l => execAll l d) =
+    (execAll pre d).bind (fun d' => o.bind (fun l => execAll l d')) := by
+  cases o with
+  | none => cases execAll pre d <;> rfl
+  | some rest => simp only [Option.map_some, Option.bind_some, execAll_append]
+
+theorem sameOutcome_refl (a : Option DB) : sameOutcome a a := by
+  cases a <;> simp [sameOutcome, sameDb]
+
+/-- where the two runs stand before a step: the same database whose version rows are the
+tracked heads, or (only before the first step of a run from base) the offline database still
+lacks the version table the online run has already created -/
+def Rel (heads : List Str) (steps : List Step) (dOff d : DB) : Prop :=
+  (dOff = d ∧ (heads ≠ [] ∨ steps = [])) ∨ (heads = [] ∧ steps ≠ [] ∧ execStmt .vtCreate dOff = some d)
+
+theorem run_agree (q : Str → Bool) (steps : List Step) : ∀ (heads : List Str) (d dOff : DB),
+    steps.all (stepOk q) = true → d.version = some heads → Rel heads steps dOff d → midOk heads steps = true →
+    sameOutcome ((offlineStmts q heads steps).bind (fun l => execAll l dOff))
+      ((onlineSteps q (heads, d) steps).map (fun s => s.2)) := by
+  induction steps with
+  | nil =>
+    intro heads d dOff _ hd hR _
+    rcases hR with ⟨e, _⟩ | ⟨_, h, _⟩
+    · subst e
+      simp only [offlineStmts, onlineSteps, Option.bind_some, Option.map_some]
+      split
+      · rename_i he
+        have : heads = [] := by simpa using he
+        subst this
+        simp [execAll, execStmt, DB.vtDrop, hd, sameOutcome, sameDb]
+      · simp [execAll, sameOutcome, sameDb]
+    · exact absurd rfl h
+  | cons st r ih =>
+    intro heads d dOff hok hd hR hmid
+    simp only [List.all_cons, Bool.and_eq_true] at hok
+    have hst := hok.1
+    simp only [stepOk, Bool.and_eq_true] at hst
+    -- both runs execute `body ++ ver` from `d`
+    have hpre : ∀ l, execAll (stepStmts q heads st ++ l) dOff =
+        execAll ((bodyStmts q st.body ++ st.ver.map verStmt) ++ l) d := by
+      intro l
+      rcases hR with ⟨e, hne⟩ | ⟨e, _, hc⟩
+      · subst e
+        have : heads ≠ [] := by rcases hne with h | h; exact h; simp at h
+        have : heads.isEmpty = false := by cases heads <;> simp_all
+        simp [stepStmts, this]
+      · subst e
+        simp [stepStmts, execAll, hc]
+    simp only [offlineStmts, onlineSteps, onlineStep, midOk] at hmid ⊢
+    rw [onlineOps_eq]
+    cases hm : hmAll heads st.ver with
+    | none =>
+      simp only [Option.bind_none]
+      cases hb : execAll (bodyStmts q st.body) d with
+      | none => simp [sameOutcome]
+      | some d1 =>
+        have hv1 : d1.version = some heads := by
+          rw [execAll_version _ d d1 (body_not_vt q st.body hst.1.2) hb, hd]
+        have := ver_all st.ver heads d1 hv1
+        simp only [hm] at this
+        simp [this, sameOutcome]
+    | some h' =>
+      simp only [hm, Bool.and_eq_true] at hmid
+      have hoff : ((offlineStmts q h' r).map (fun rest => stepStmts q heads st ++ rest)).bind (fun l => execAll l dOff) =
+          ((offlineStmts q h' r).map (fun rest => (bodyStmts q st.body ++ st.ver.map verStmt) ++ rest)).bind
+            (fun l => execAll l d) := by
+        cases offlineStmts q h' r with
+        | none => rfl
+        | some rest => simp only [Option.map_some, Option.bind_some]; exact hpre rest
+      simp only []
+      rw [hoff, bind_prefix, execAll_append]
+      cases hb : execAll (bodyStmts q st.body) d with
+      | none => simp [sameOutcome]
+      | some d1 =>
+        have hv1 : d1.version = some heads := by
+          rw [execAll_version _ d d1 (body_not_vt q st.body hst.1.2) hb, hd]
+        have := ver_all st.ver heads d1 hv1
+        simp only [hm] at this
+        obtain ⟨d', e1, e2, e3⟩ := this
+        simp only [Option.bind_some, e1, e2]
+        have hR' : Rel h' r d' d' := by
+          refine Or.inl ⟨rfl, ?_⟩
+          have hm1 := hmid.1
+          simp only [Bool.or_eq_true, Bool.not_eq_true'] at hm1
+          rcases hm1 with h | h
+          · right; simpa using h
+          · left; intro e; subst e; simp at h
+        exact ih h' d' d' hok.2 e3 hR' hmid.2
+
+theorem vtOk (q : Str → Bool) (hq : BareSafe q) : VtOk q := by
+  refine ⟨?_, ?_⟩
+  · simp only [stmtOk, readsBack, reads_back_vt q hq .vtCreate rfl, beq_self_eq_true, Bool.true_and]
+    have : renderStmt q .vtCreate = renderStmt (fun _ => true) .vtCreate := rfl
+    rw [this]; decide
+  · simp only [stmtOk, readsBack, reads_back_vt q hq .vtDrop rfl, beq_self_eq_true, Bool.true_and]
+    have : renderStmt q .vtDrop = renderStmt (fun _ => true) .vtDrop := rfl
+    rw [this]; decide
+
+/-- **C12.same_effect (partial form).** For every quoting policy that is safe for bare names, every
+list of migration steps with bodies from the language, every version bookkeeping, every assumed
+start and every database whose version rows are that start: executing the offline script
+statement by statement leaves the same tables, rows, indexes and version rows as the online
+run (or both runs raise).  Extra hypotheses, all decidable and evaluated by the driver on the
+generated inputs (`stepOk`): no TAB in a rendered statement (see `same_effect_counterexample`),
+every rendered body statement is read back as itself (`readsBack`; proved in general for the
+version-table statements, `reads_back_vt`), `op.execute` texts are plain single statements,
+and the head set is empty only before the first / after the last step (`midOk`). -/
+theorem same_effect_partial (q : Str → Bool) (hq : BareSafe q) (start : List Str) (steps : List Step) (db₀ : DB)
+    (hsteps : steps.all (stepOk q) = true)
+    (hdb : db₀.version = if start.isEmpty then none else some start)
+    (hne : start.isEmpty = true → steps ≠ [])
+    (hmid : midOk start steps = true) :
+    sameOutcome ((offline q start steps).bind (fun script => execScript q script db₀)) (online q steps db₀) := by
+  have hv : VtOk q := vtOk q hq
+  -- the script executes as its statements
+  have h1 : (offline q start steps).bind (fun script => execScript q script db₀) =
+      (offlineStmts q start steps).bind (fun l => execAll l db₀) := by
+    have := Reads_offline q hq hv steps start hsteps
+    simp only [offline]
+    cases hi : offlineItems q start steps <;> cases hs : offlineStmts q start steps <;> simp only [hi, hs] at this
+    all_goals first
+      | rfl
+      | exact this.elim
+      | simp [exec_script_eq q _ _ this db₀]
+  rw [h1]
+  cases hs : start.isEmpty with
+  | false =>
+    simp only [hs] at hdb
+    have hne' : start ≠ [] := by intro e; subst e; simp at hs
+    have : online q steps db₀ = (onlineSteps q (start, db₀) steps).map (fun s => s.2) := by
+      simp [online, hdb, hs]
+    rw [this]
+    exact run_agree q steps start db₀ db₀ hsteps hdb (Or.inl ⟨rfl, Or.inl hne'⟩) hmid
+  | true =>
+    have e : start = [] := by simpa using hs
+    subst e
+    simp only [List.isEmpty_nil, if_true] at hdb
+    have : online q steps db₀ = (onlineSteps q ([], db₀.ensureVT) steps).map (fun s => s.2) := by
+      simp [online, hdb]
+    rw [this]
+    refine run_agree q steps [] db₀.ensureVT db₀ hsteps (by simp [DB.ensureVT, hdb]) ?_ hmid
+    exact Or.inr ⟨rfl, hne rfl, by simp [execStmt, DB.vtCreate, DB.ensureVT, hdb]⟩
+
+/-- the full-strength statement: `same_effect_partial` without the "no TAB" hypothesis
+    (`stepOk` replaced by its TAB-free-less variant is what the property text asks for) -/
+def same_effect_statement : Prop :=
+  ∀ (q : Str → Bool), BareSafe q → ∀ (start : List Str) (steps : List Step) (db₀ : DB),
+    db₀.version = (if start.isEmpty then none else some start) → (start.isEmpty = true → steps ≠ []) →
+    midOk start steps = true →
+    sameOutcome ((offline q start steps).bind (fun script => execScript q script db₀)) (online q steps db₀)
+
+/-- witness of finding C12-TAB: one revision creating `t (s TEXT)` and inserting the value `a<TAB>b` -/
+def tabWitness : List Step :=
+  [⟨['u'], [.createTable ['t'] [⟨['s'], .text, true⟩], .bulkInsert ['t'] [['s']] [[.str ['a', '\t', 'b']]]],
+    [.insert ['r']]⟩]
+
+/-- **C12.same_effect_counterexample** (known finding C12-TAB): `_exec` replaces TABs in the whole
+statement, string literals included, so the offline script inserts `a    b` where the online run
+inserts `a<TAB>b`. -/
+theorem same_effect_counterexample :
+    ¬ sameOutcome ((offline (fun _ => true) [] tabWitness).bind (fun script => execScript (fun _ => true) script DB.empty))
+      (online (fun _ => true) tabWitness DB.empty) := by
+  rw [← sameOutcomeB_iff]
+  decide +kernel
+
+set_option maxRecDepth 8192 in
+theorem same_effect_statement_false : ¬ same_effect_statement := by
+  intro h
+  have hb : BareSafe (fun _ => true) := fun n hn => by simp at hn
+  have h1 : DB.empty.version = (if ([] : List Str).isEmpty then none else some []) := rfl
+  have h2 : ([] : List Str).isEmpty = true → tabWitness ≠ [] := fun _ => by simp [tabWitness]
+  have h3 : midOk [] tabWitness = true := by decide +kernel
+  exact same_effect_counterexample (h _ hb [] tabWitness DB.empty h1 h2 h3)
+
+/-- non-vacuity of `same_effect_partial`: the same migration with a TAB-free value satisfies
+    every hypothesis -/
+example : [⟨['u'], [.createTable ['t'] [⟨['s'], .text, true⟩], .bulkInsert ['t'] [['s']] [[.str ['a', ';', '\'', 'b']]]],
+    [.insert ['r']]⟩].all (stepOk (fun _ => true)) = true := by decide +kernel
 
 end C12
